@@ -110,6 +110,7 @@ def atoiLoose (s : Bytes) : Int :=
 
 inductive ShiftRes where
   | usage                 -- "usage: shift [n]", status 2
+  | outOfRange            -- "shift count out of range", status 1 (n < 0)
   | ok (nparams : Nat)    -- number of positional parameters left
   | panic
   deriving DecidableEq, Repr
@@ -120,9 +121,10 @@ def shiftCount : List Bytes → Option Int
   | [a] => goAtoi a
   | _ => none
 
-/-- `if n >= len(r.Params) { r.Params = nil } else { r.Params = r.Params[n:] }`. -/
+/-- `if n < 0 { fail } if n >= len(r.Params) { r.Params = nil } else { r.Params = r.Params[n:] }`. -/
 def shiftBy (params : List Bytes) (n : Int) : ShiftRes :=
-  if n ≥ (params.length : Int) then .ok 0
+  if n < 0 then .outOfRange
+  else if n ≥ (params.length : Int) then .ok 0
   else match sliceFromI params n with      -- r.Params[n:]
     | .ok rest => .ok rest.length
     | .panic => .panic
@@ -457,6 +459,33 @@ def needsArg (optstr : List Nat) (opt : Nat) : Bool :=
   | some i => decide (opt < 128) && decide (i + 1 < optstr.length) && (optstr[i + 1]? == some 58)
   | none => false
 
+/-- `if g.runeidx >= len(opts) { g.runeidx = 0 }`: a stale rune cursor (the argument vector changed
+    since the previous call) starts the word over. -/
+def gRuneIdx (runeidx : Nat) (opts : List Nat) : Nat :=
+  if runeidx ≥ opts.length then 0 else runeidx
+
+/-- The part of `getopts.next` after the cursor repair: `opt = opts[g.runeidx]` and the rest. -/
+def gstep (g : GState) (optstr : List Nat) (args : List (List Nat)) (opts : List Nat) :
+    Res (GState × GOut) :=
+  match getN opts g.runeidx with               -- opts[g.runeidx]
+  | .panic => .panic
+  | .ok opt =>
+    if needsArg optstr opt then
+      if g.runeidx + 1 < opts.length then
+        match sliceFromN opts (g.runeidx + 1) with
+        | .panic => .panic
+        | .ok oa => .ok (⟨g.argidx + 1, 0⟩, ⟨opt, oa, false⟩)
+      else if g.argidx + 1 < args.length then
+        match getN args (g.argidx + 1) with
+        | .panic => .panic
+        | .ok oa => .ok (⟨g.argidx + 2, 0⟩, ⟨opt, oa, false⟩)
+      else .ok (⟨g.argidx + 1, 0⟩, ⟨58, [opt], false⟩)
+    else
+      let g' : GState :=
+        if g.runeidx + 1 < opts.length then ⟨g.argidx, g.runeidx + 1⟩ else ⟨g.argidx + 1, 0⟩
+      if (indexRune optstr opt 0).isNone then .ok (g', ⟨63, [opt], false⟩)
+      else .ok (g', ⟨opt, [], false⟩)
+
 /-- `getopts.next`. -/
 def gnext (g : GState) (optstr : List Nat) (args : List (List Nat)) : Res (GState × GOut) :=
   if args.length = 0 ∨ g.argidx ≥ args.length then .ok (g, gDone) else
@@ -475,24 +504,7 @@ def gnext (g : GState) (optstr : List Nat) (args : List (List Nat)) : Res (GStat
     match sliceFromN arg 1 with
     | .panic => .panic
     | .ok opts =>
-    match getN opts g.runeidx with               -- opts[g.runeidx]
-    | .panic => .panic
-    | .ok opt =>
-      if needsArg optstr opt then
-        if g.runeidx + 1 < opts.length then
-          match sliceFromN opts (g.runeidx + 1) with
-          | .panic => .panic
-          | .ok oa => .ok (⟨g.argidx + 1, 0⟩, ⟨opt, oa, false⟩)
-        else if g.argidx + 1 < args.length then
-          match getN args (g.argidx + 1) with
-          | .panic => .panic
-          | .ok oa => .ok (⟨g.argidx + 2, 0⟩, ⟨opt, oa, false⟩)
-        else .ok (⟨g.argidx + 1, 0⟩, ⟨58, [opt], false⟩)
-      else
-        let g' : GState :=
-          if g.runeidx + 1 < opts.length then ⟨g.argidx, g.runeidx + 1⟩ else ⟨g.argidx + 1, 0⟩
-        if (indexRune optstr opt 0).isNone then .ok (g', ⟨63, [opt], false⟩)
-        else .ok (g', ⟨opt, [], false⟩)
+    gstep ⟨g.argidx, gRuneIdx g.runeidx opts⟩ optstr args opts
 
 /-- The cursor synchronisation of `case "getopts"` with the shell variable OPTIND. -/
 def gsync (g : GState) (optind : Int) : GState :=
@@ -646,11 +658,19 @@ def sliceLen {α : Type} (l : List α) : Option Int → Res (List α)
   | some n => sliceToI l (slicePos l.length n)
 
 /-- String slicing in `paramExp` (`callVarInd` branch): runes of the value, optional offset and
-    length as already evaluated integers. -/
-def sliceStr (rs : List Nat) (off len : Option Int) : Res (List Nat) :=
+    length as already evaluated integers.  `none` is the error "substring expression < 0"
+    (`sliceLen < 0 && len(rs)+sliceLen < 0`, tested after the offset was applied). -/
+def sliceStr (rs : List Nat) (off len : Option Int) : Res (Option (List Nat)) :=
   match sliceOff rs off with
   | .panic => .panic
-  | .ok rs1 => sliceLen rs1 len
+  | .ok rs1 =>
+    match len with
+    | some l =>
+      if l < 0 ∧ (rs1.length : Int) + l < 0 then .ok none
+      else match sliceLen rs1 len with
+        | .panic => .panic
+        | .ok r => .ok (some r)
+    | none => .ok (some rs1)
 
 /-- Go's `slices.BinarySearch` loop on an ascending list: smallest position whose element is
     not less than the target. -/
@@ -739,15 +759,18 @@ def wordLit : List Part → Bytes
     | none => []
     | some v => if rest.all (fun q => (litOf q).isSome) then v ++ wordLit rest else []
 
-/-- `expr.X.(*syntax.Word).Lit()` followed by `cfg.envGet(name)` → `Runner.lookupVar(name)`,
-    which panics on an empty name. -/
-def arithLvalue (x : AExpr) : Res Bytes :=
-  match x with
-  | .word parts =>
-    let name := wordLit parts
-    if name = [] then .panic            -- panic("variable name must not be empty")
-    else .ok name
-  | _ => .panic                         -- failed type assertion
+/-- `nodeLit(expr.X)`: the literal of a `*syntax.Word`, "" for any other node. -/
+def nodeLit : AExpr → Bytes
+  | .word parts => wordLit parts
+  | _ => []
+
+/-- The l-value of `++ -- = op=` in `expand.Arithm` / `assgnArit`: `name := nodeLit(X)`; an empty
+    name (`a[1]++`, `++x++`) is the error "unsupported assignment target" (`none`), otherwise the
+    variable is looked up and set by name.  (`Runner.lookupVar("")` no longer panics either: it
+    returns the unset variable.) -/
+def arithLvalue (x : AExpr) : Res (Option Bytes) :=
+  let name := nodeLit x
+  if name = [] then .ok none else .ok (some name)
 
 /-- `varInd` / `assignElem` / `assignVal` on an associative array with a subscript that is not
     `@`/`*`: `idx.(*syntax.Word)`. -/
